@@ -288,6 +288,7 @@ pub fn exec(c: &Case) -> Outcome {
     let (rep_tx, rep_rx) = mpsc::channel::<(usize, ChanReport)>();
     // "everything except the undrained consumer is complete" rendezvous
     let others_done = std::sync::Arc::new(std::sync::atomic::AtomicUsize::new(0));
+    let closed = std::sync::Arc::new(std::sync::atomic::AtomicBool::new(false));
     let mut handles = Vec::new();
     for (i, ch) in chans.into_iter().enumerate() {
         let (ncons, listener) = c.channels[i];
@@ -300,6 +301,7 @@ pub fn exec(c: &Case) -> Outcome {
         let ngets = n_gets[i];
         let base = cons_base[i];
         let others_done = others_done.clone();
+        let closed = closed.clone();
         let nthreads = nch;
         handles.push(
             std::thread::Builder::new()
@@ -430,11 +432,14 @@ pub fn exec(c: &Case) -> Outcome {
                     if let Err(e) = ch.qos(0, 0, false) {
                         rep.errors.push(format!("post-ack qos: {:?}", e));
                     }
-                    // forget consumers: their cancel traffic is C11's business
-                    for cn in consumers {
-                        std::mem::forget(cn);
-                    }
                     let _ = rep_tx.send((i, rep));
+                    // keep the consumers until the connection is closed (their cancel traffic is
+                    // C11's business); dropping them then fails fast and frees their queues
+                    let t0 = std::time::Instant::now();
+                    while !closed.load(std::sync::atomic::Ordering::SeqCst) && t0.elapsed() < Duration::from_secs(60) {
+                        std::thread::sleep(Duration::from_millis(1));
+                    }
+                    drop(consumers);
                     ch
                 })
                 .expect("spawn"),
@@ -449,6 +454,7 @@ pub fn exec(c: &Case) -> Outcome {
             Ok((i, t)) => tags[i] = t,
             Err(_) => {
                 wire.push_eof();
+                closed.store(true, std::sync::atomic::Ordering::SeqCst);
                 let _ = sess.broker.stop();
                 return Outcome::hang("setup-hang", "channel threads did not become ready");
             }
@@ -523,18 +529,20 @@ pub fn exec(c: &Case) -> Outcome {
             Ok((i, r)) => reports[i] = Some(r),
             Err(_) => {
                 wire.push_eof();
+                closed.store(true, std::sync::atomic::Ordering::SeqCst);
                 let _ = sess.broker.stop();
                 return Outcome::hang("delivery-hang", format!("a channel thread did not finish; reports so far: {:?}", reports.iter().map(|r| r.is_some()).collect::<Vec<_>>()));
             }
         }
     }
+    let close = crate::session::timed_close(conn);
+    closed.store(true, std::sync::atomic::Ordering::SeqCst);
     let mut back = Vec::new();
     for h in handles {
         if let Ok(ch) = h.join() {
             back.push(ch);
         }
     }
-    let close = crate::session::timed_close(conn);
     drop(back);
     let io_thread = wire.io_thread();
     let (b, _io) = sess.broker.stop();
@@ -871,7 +879,7 @@ pub fn parts() -> Vec<Box<dyn PartDyn>> {
         Box::new(Part::<Case> {
             name: "e2e",
             rule: "valid server histories: 1-4 channels (a thread each) with 0-3 consumers and an optional return listener, 1-29 messages (deliver / get-ok / get-empty / return, generated metadata and properties, bodies 0-12 000 bytes cut into generated body frames incl. 1-byte frames), a generated interleaving of the channels' frame sequences and a generated segmentation of the byte stream into reads (1-8 byte segments, would-block markers); optionally one consumer is not drained until all others are done; oracle: every receiver / get / return listener yields exactly the scripted messages, field by field, in order, exactly once (nothing queued after a final barrier), acks through the arrival channel do not panic and reach the wire on that channel; non-trivial = a multi-frame body has another channel's frame in between, or a read boundary falls inside a frame; distinct by case hash",
-            cases: |t| t.pick(800, 20_000),
+            cases: |t| t.pick(2000, 30_000),
             threads: 12,
             strategy: strat,
             exec,
@@ -882,7 +890,7 @@ pub fn parts() -> Vec<Box<dyn PartDyn>> {
         Box::new(Part::<ProbeCase> {
             name: "collector",
             rule: "valid call sequences (1-5 messages: deliver/return/get-ok, header, body frames adding up exactly, bodies 0-20 000 bytes in 1..n frames) on the content collector through the CollectorProbe hook vs. a reference collector: identical None/Some(message) at every step, message equal field by field; non-trivial = a body of >= 2 frames; distinct by case hash",
-            cases: |t| t.pick(60_000, 2_000_000),
+            cases: |t| t.pick(150_000, 3_000_000),
             threads: 16,
             strategy: |_t| strat_valid(),
             exec: exec_probe,
